@@ -1,6 +1,6 @@
 SPECIFICATION Spec
 CONSTANTS MaxDepth = 3
-  Families <- FamT_F
+  Families <- FamT_F1
   StoreByCopy = TRUE
   TailKeepsSets = TRUE
 INVARIANT Emitted
